@@ -1,7 +1,12 @@
 #!/usr/bin/env python3
 # jobs for units/io.cpp — stream and fd readers/writers over the ASSUMED iostream / POSIX models.
 out = []
+# jobs that did not finish within the 14 GB / 3000 s limits on this image (measured in the thorough tier): they decided
+# nothing and are not registered; the same round trip is decided for the smaller types and the other pairings below
+DROPPED = {"rt_s1_fd": "out of memory", "rt_s1_stream_fd": "out of memory", "rt_tr_stream": "out of memory"}
 def job(name, props, unwind, kind="complete", note="constant trip counts", tier="quick", extra=""):
+    if name in DROPPED:
+        return
     out.append("job io_%s\n  props %s\n  harness h_%s\n  unwind %d %s %s\n%s  tier %s\n  timeout 3000\n" % (name, props, name, unwind, kind, note, extra, tier))
 # conformance: three symbolic primitive calls in lock step with the reference source/sink (bounded history)
 for n in ("conf_stream_reader", "conf_stream_writer"):
